@@ -117,7 +117,15 @@ func corpusLateAdd(t *testing.T, w *emit.Writer) {
 			req = fmt.Sprintf("(Some (%d, %d))", last[0], last[1])
 		}
 		g.mu.Unlock()
-		o += fmt.Sprintf("%d %d %d %d %d %s %d %s %d)", lh.Height(), reg.ID(lh.Hash()), s.ID, s.FromHeight, s.ToHeight, emit.B(s.Error != ""), s.Height, req, storeHeadID())
+		top := storeHead()
+		for k := uint64(1); k <= 4; k++ {
+			c2, cancel2 := context.WithTimeout(context.Background(), 5*time.Millisecond)
+			if a, err := st.GetByHeight(c2, storeHead()+k); err == nil && a != nil {
+				top = storeHead() + k
+			}
+			cancel2()
+		}
+		o += fmt.Sprintf("%d %d %d %d %d %s %d %s %d %d)", lh.Height(), reg.ID(lh.Hash()), s.ID, s.FromHeight, s.ToHeight, emit.B(s.Error != ""), s.Height, req, storeHeadID(), top)
 		acts = append(acts, emit.Pair(act, o))
 	}
 	term := func(h *PH) string { return reg.Term(&h.Header) }
